@@ -59,15 +59,26 @@ def parse_all(data: bytes, thorough: bool) -> dict:
     return out
 
 
+def frames_in(data: bytes) -> int:
+    """Number of complete delimited frames the input really contains (legitimate work: every
+    frame, even an empty one, costs the grouped parsers one sink object)."""
+    try:
+        return len(jwire.frame_offsets(data))
+    except jwire.WireError:
+        return 0
+
+
 def run_one(data: bytes, thorough: bool):
     """-> (violation kind | None, detail, outcomes)."""
+    nframes = frames_in(data) if len(data) > 2000 else 0
+    budget = TIME_BUDGET + 0.0002 * nframes
     before = resource.getrusage(resource.RUSAGE_SELF).ru_maxrss
     t0 = time.process_time()
-    signal.setitimer(signal.ITIMER_PROF, TIME_BUDGET)
+    signal.setitimer(signal.ITIMER_PROF, budget)
     try:
         outcomes = parse_all(data, thorough)
     except CaseTimeout:
-        return "hang", f"no result within {TIME_BUDGET}s of CPU time", {}
+        return "hang", f"no result within {budget:.0f}s of CPU time", {}
     except BaseException as e:  # noqa: BLE001
         return "fatal", f"non-ordinary exception {type(e).__name__}: {e}", {}
     finally:
@@ -77,9 +88,9 @@ def run_one(data: bytes, thorough: bool):
     global MAX_GROWN
     MAX_GROWN = max(MAX_GROWN, grown)
     # the input itself is held a few times (source copy, read buffer, protobuf copy)
-    if grown > RSS_BUDGET_KB + 10 * len(data) // 1024:
+    if grown > RSS_BUDGET_KB + 10 * len(data) // 1024 + 2 * nframes:
         return "memory", f"peak RSS grew by {grown // 1024} MiB", outcomes
-    if dt > TIME_BUDGET:
+    if dt > budget:
         return "slow", f"took {dt:.1f}s", outcomes
     return None, f"{dt * 1000:.2f}ms", outcomes
 
@@ -137,7 +148,7 @@ def varint(n: int) -> bytes:
     return jwire.enc_varint(n)
 
 
-def family_e3():
+def family_e3(thorough: bool = False):
     opts = {"physical_type": 1, "max_name_table_size": 8, "version": 1}
     orow = jwire.mkrow("options", opts)
     big = (2**31 - 1, 2**33, 2**62)
@@ -185,6 +196,9 @@ def family_e3():
     yield "continuation-bytes", b"\x0a" + b"\xff" * 100_000
     yield "empty-frames", b"\x00" * 10_000
     yield "empty-frames", b"\x00" * 10_000 + jwire.write_delimited([jwire.enc_frame([orow])])
+    tr1 = jwire.mkrow("triple", {"s": ("bnode", "a"), "p": ("bnode", "b"), "o": ("bnode", "c")})
+    for k in (40_000, 100_000) + ((400_000,) if thorough else ()):
+        yield "empty-frames", b"\x00" * k + jwire.write_delimited([jwire.enc_frame([orow, tr1])])
     tr = jwire.mkrow("triple", {"s": ("bnode", "a"), "p": ("bnode", "b"), "o": ("bnode", "c")})
     for pos in range(0, 6):
         rows = [orow] + [tr] * 5
@@ -218,7 +232,7 @@ def shard(job) -> dict:
             for d in family_e2(seed, values, lo, hi):
                 yield "e2:" + name, d
         else:
-            for label, d in list(family_e3())[args[0]::args[1]]:
+            for label, d in list(family_e3(thorough))[args[0]::args[1]]:
                 yield "e3:" + label, d
 
     for label, data in cases():
@@ -288,6 +302,13 @@ def run(ctx) -> None:
                         del pending[i]
                         try:
                             results.append(a.get())
+                            if results[-1].get("extra", {}).get("aborted"):
+                                # inputs hang one after the other: no point in burning the
+                                # budget on every remaining shard
+                                ctx.coverage["aborted_after_hang"] = True
+                                p.terminate()
+                                pending.clear()
+                                break
                         except Exception as e:  # noqa: BLE001  worker died / harness error
                             j = jobs[i]
                             data = open(j[3], "rb").read() if os.path.exists(j[3]) else b""
@@ -342,7 +363,7 @@ def run(ctx) -> None:
             "10^5 continuation bytes, 10^4 empty frames, options rows everywhere, 2000 frames); "
             "entry points: flat+grouped of both integrations from BytesIO and a non-seekable raw "
             "source (+ parse-to-graph and Graph.parse in thorough); per-case 10 s CPU-time interval-timer "
-            "watchdog, peak-RSS growth < 24 MiB after warm-up, parent-side worker watchdog; non-trivial = at "
+            "watchdog, peak-RSS growth < 24 MiB (+10 bytes per input byte, +2 KiB per real frame) after warm-up, parent-side worker watchdog; non-trivial = at "
             "least one entry point raised"
         ),
     )
